@@ -43,9 +43,9 @@ PROPS["C16"] = dict(
     check_module="Params.Check",
     check_fn="check_case",
     translators=[dict(driver="params", args=["defaults"], out="Gen/ParamsDefaults.v")],
-    streams=[dict(name="coinswap", quick=90, thorough=2500), dict(name="farm", quick=80, thorough=2000),
-             dict(name="htlc", quick=90, thorough=2500), dict(name="service", quick=90, thorough=2500),
-             dict(name="token", quick=80, thorough=2000)],
+    streams=[dict(name="coinswap", quick=80, thorough=2500), dict(name="farm", quick=70, thorough=2000),
+             dict(name="htlc", quick=85, thorough=2500), dict(name="service", quick=85, thorough=2500),
+             dict(name="token", quick=75, thorough=2000)],
     rule="the first 26..59 cases of each stream are a deterministic boundary sweep (the default set with one field set to each value of a "
          "fixed table: 0, 10^-18, 1-10^-18, 1, 1+10^-18, 2, -1, absent, 2^300, -2^200 for rates; 0, 1, -1, absent, 2^256-1, 2^255, 2^254 for amounts; "
          "invalid denoms; lock / timeout / multiple extremes), sent by the authority or through genesis and followed by one instance of every "
